@@ -247,6 +247,43 @@ def run(rep: Report, tier: str):
                                 f.file,
                                 n.lineno,
                             )
+    # (a2) the opcode list is owned: what the class stores in self._opcodes is a container it created itself, and no
+    # method hands the live list out.  A list shared with the caller (or with another Pickled built from the same list)
+    # is edited behind this object's back: its caches are never reset.
+    def fresh_container(v: ast.AST, f: FuncInfo) -> bool:
+        if isinstance(v, (ast.List, ast.ListComp)):
+            return True
+        if isinstance(v, ast.Call) and dotted(v.func) in ("list", "copy.copy", "copy.deepcopy", "sorted"):
+            return True
+        if isinstance(v, ast.Call) and isinstance(v.func, ast.Attribute) and v.func.attr == "copy" and not v.args:
+            return True
+        if isinstance(v, ast.Subscript) and isinstance(v.slice, ast.Slice) and v.slice.lower is None and v.slice.upper is None and v.slice.step is None:
+            return True
+        if isinstance(v, ast.BinOp) and isinstance(v.op, ast.Add):
+            return fresh_container(v.left, f) or fresh_container(v.right, f)
+        if isinstance(v, ast.IfExp):
+            return fresh_container(v.body, f) and fresh_container(v.orelse, f)
+        if isinstance(v, ast.BoolOp):
+            return all(fresh_container(x, f) for x in v.values)
+        return False
+
+    n_owned = 0
+    for c in classes:
+        for name, fs in c.methods.items():
+            for f in fs:
+                for n in body_walk(f.node):
+                    if isinstance(n, (ast.Assign, ast.AnnAssign)) and n.value is not None:
+                        for t in store_targets(n):
+                            if _self_attr(t) == LIST_ATTR:
+                                n_owned += 1
+                                if fresh_container(n.value, f):
+                                    rep.ok("C14.single-writer", f.qualname, f"self.{LIST_ATTR} = {src(n.value)} (a container this object created)", f"{f.file}:{n.lineno}")
+                                else:
+                                    rep.bad("C14.single-writer", f.qualname, f"list-not-owned:{LIST_ATTR}", f"`{src(n)}` may store a list the caller (or another Pickled) also holds: edits made through the other reference change this pickle's opcodes without resetting its caches", f.file, n.lineno)
+                    if isinstance(n, (ast.Return, ast.Yield)) and n.value is not None and _self_attr(n.value) == LIST_ATTR:
+                        rep.bad("C14.single-writer", f.qualname, f"list-leaked:{LIST_ATTR}", f"`{src(n)}` hands out the live opcode list: edits made through it bypass cache invalidation", f.file, n.lineno)
+    if n_owned == 0:
+        raise AnalysisError("Pickled never assigns self._opcodes (anchor vanished)")
     # (b) writers outside the class
     protected = set(caches) | {LIST_ATTR}
     class_funcs = {f.qualname for c in classes for fs in c.methods.values() for f in fs}
